@@ -2,7 +2,7 @@ SPECIFICATION Spec
 CONSTANTS
   Jobs = {"j1", "j2", "j3"}
   Waiters = {"w1"}
-  Kinds = {"ok", "error", "panic"}
+  Kinds = {"ok", "error", "panic", "eof", "canceled", "deadline"}
   Modes = {"gate"}
   Comps = {"pool", "hpool"}
   Workers = {1, 2}
